@@ -18,9 +18,10 @@ rescaled homogeneous coordinates, Lin / Trans apply affine_linear_map / affine_t
 `@`; after every step and for EVERY chart the library must report the spec's verdict
 (in_affine_chart; affine_coords raises GeometryError exactly when the chart coordinate is zero)
 and the spec's affine coordinates, for unit objects, composite objects, row and column layouts and
-the round trip through Point(.., chart_index=k); real and complex mode (complex mode reaches
-purely imaginary chart coordinates).  hyperplane_coordinate_transform: orthogonal, and the chart
-coordinate of the image has the exact cos^2 (zero exactly on the hyperplane).  Every state of
+the round trip through Point(.., chart_index=k), stacks of column matrices of several batch shapes; real and complex mode (complex mode reaches
+purely imaginary chart coordinates).  hyperplane_coordinate_transform (generic and axis-aligned normals of both signs, rational
+multiples): orthogonal, and the chart coordinate of the image has the exact cos^2 (zero exactly on
+the hyperplane).  Every state of
 Subspaces.tla is replayed through Subspace.intersect (single pairs, elementwise composites,
 pairwise with 1-d and 2-d composite shapes, ndarray argument): dimension, independence, in both,
 same span as the exact intersection.  Every state of ProjEigen.tla through
@@ -80,6 +81,12 @@ def lst(a):
     if np.iscomplexobj(a):
         return [str(complex(np.round(z, 9))) for z in a.ravel()]
     return np.round(a, 9).tolist()
+
+
+def over(x, bound):
+    """x > bound, and True for NaN (a non-finite residual is never within tolerance)"""
+    with np.errstate(all="ignore"):
+        return ~(np.asarray(x) <= bound)
 
 
 def parallel(u, v, tol=TOL):
@@ -168,12 +175,12 @@ def check_charts(run, n, cplx, rows, obss, tag):
                         with warnings.catch_warnings():
                             warnings.simplefilter("ignore")
                             g1 = np.asarray(P.Point(rows[i].copy()).affine_coords(chart_index=k))
-                        if g1.shape != want[a].shape or np.abs(g1 - want[a]).max(initial=0) > TOL * scale[a]:
+                        if g1.shape != want[a].shape or over(np.abs(g1 - want[a]).max(initial=0), TOL * scale[a]):
                             viol(int(i), "affine_coords.value", dict(chart=k, library=lst(g1), spec=lst(want[a])))
                     except Exception as ex:
                         viol(int(i), "raised:affine_coords", dict(chart=k, chart_coordinate=str(rows[i][k]), error=err(ex)))
             else:
-                bad = np.abs(got - want).max(-1, initial=0) > TOL * scale
+                bad = over(np.abs(got - want).max(-1, initial=0), TOL * scale)
                 for a in np.nonzero(bad)[0][:3]:
                     viol(int(idx[a]), "affine_coords.value", dict(chart=k, library=lst(got[a]), spec=lst(want[a])))
                 # column layout of the module-level function
@@ -181,7 +188,7 @@ def check_charts(run, n, cplx, rows, obss, tag):
                     with warnings.catch_warnings():
                         warnings.simplefilter("ignore")
                         gc = np.asarray(P.affine_coords(rows[idx].T.copy(), chart_index=k, column_vectors=True))
-                    if gc.shape != want.T.shape or (np.abs(gc.T - want).max(-1, initial=0) > TOL * scale).any():
+                    if gc.shape != want.T.shape or over(np.abs(gc.T - want).max(-1, initial=0), TOL * scale).any():
                         viol(int(idx[0]), "affine_coords.column_layout", dict(chart=k, library=lst(gc.T[0]) if gc.ndim == 2 else list(gc.shape), spec=lst(want[0])))
                 except Exception as ex:
                     viol(int(idx[0]), "raised:affine_coords.column_layout", dict(chart=k, error=err(ex)))
@@ -198,12 +205,39 @@ def check_charts(run, n, cplx, rows, obss, tag):
                     elif not parallel(hom, rows[idx]).all():
                         a = int(np.nonzero(~parallel(hom, rows[idx]))[0][0])
                         viol(int(idx[a]), "projective_coords.same_point", dict(chart=k, library=lst(hom[a]), affine=lst(want[a])))
-                    elif (np.abs(again - want).max(-1, initial=0) > TOL * scale).any():
+                    elif over(np.abs(again - want).max(-1, initial=0), TOL * scale).any():
                         viol(int(idx[0]), "chart_round_trip", dict(chart=k))
-                    elif homc.shape != hom.T.shape or np.abs(homc.T - hom).max(initial=0) > 0:
+                    elif homc.shape != hom.T.shape or over(np.abs(homc.T - hom).max(initial=0), 0):
                         viol(int(idx[0]), "projective_coords.column_layout", dict(chart=k))
                 except Exception as ex:
                     viol(int(idx[0]), "raised:projective_coords", dict(chart=k, error=err(ex)))
+                # stacks of column matrices, shape batch + (d, N): the layout of a composite in column convention
+                for bshape in ((2,), (3,), (2, 2), (1, 2)):
+                    B = int(np.prod(bshape))
+                    N_ = len(idx) // B
+                    if N_ < 1 or B * N_ < 2 or got is None or got.shape != want.shape:
+                        continue
+                    try:
+                        with warnings.catch_warnings():
+                            warnings.simplefilter("ignore")
+                            sub = rows[idx][:B * N_]
+                            w = want[:B * N_]
+                            stack = sub.reshape(bshape + (N_, n + 1)).swapaxes(-1, -2).copy()
+                            wst = w.reshape(bshape + (N_, n)).swapaxes(-1, -2).copy()
+                            gs = np.asarray(P.affine_coords(stack, chart_index=k, column_vectors=True))
+                            hs = np.asarray(P.projective_coords(wst.copy(), chart_index=k, column_vectors=True))
+                        sc = scale[:B * N_].reshape(bshape + (1, N_))
+                        if gs.shape != wst.shape or over(np.abs(gs - wst), TOL * sc).any():
+                            viol(int(idx[0]), "affine_coords.column_stack", dict(chart=k, batch_shape=list(bshape), points_per_matrix=N_,
+                                                                                  got_shape=list(gs.shape), expected_shape=list(wst.shape)))
+                        hrow = np.asarray(P.projective_coords(w.copy(), chart_index=k))        # row layout of the same points
+                        hexp = hrow.reshape(bshape + (N_, n + 1)).swapaxes(-1, -2)
+                        if hs.shape != hexp.shape or not (hs[..., k, :] == 1).all() or over(np.abs(hs - hexp), 0).any():
+                            viol(int(idx[0]), "projective_coords.column_stack", dict(chart=k, batch_shape=list(bshape), points_per_matrix=N_,
+                                                                                      got_shape=list(hs.shape), expected_shape=list(hexp.shape)))
+                    except Exception as ex:
+                        viol(int(idx[0]), "raised:column_stack", dict(chart=k, batch_shape=list(bshape), points_per_matrix=N_, error=err(ex)))
+                    run.evaluations += 2 * B * N_
             run.evaluations += 3 * len(idx)
         # outside the chart: the conversion must refuse, point by point
         for i in np.nonzero(~inside)[0]:
@@ -351,30 +385,33 @@ def walk_affine(run, n, cplx, r, rng):
 def hyperplanes(run, n, hyp):
     P = proj()
     for rec in hyp.values():
-        nv = np.array(rec["n"], dtype=float)
-        key = "hyperplane:n=%d:%s" % (n, rec["n"])
-        run.case(key=key, action="hyperplane_coordinate_transform")
-        try:
-            T = P.hyperplane_coordinate_transform(nv.copy())
-            M = np.asarray(T.matrix, float)
-            if M.shape != (n + 1, n + 1) or np.abs(M @ M.T - np.eye(n + 1)).max() > TOL:
-                run.violation(key, "hyperplane_transform.orthogonal", dict(normal=rec["n"], matrix=M.tolist()))
-                continue
-            V = np.array([p[0] for p in rec["pts"]], dtype=float)
-            cos2 = np.array([p[1][0] / p[1][1] for p in rec["pts"]])
-            img = np.asarray((T @ P.Point(V.copy())).proj_data, float)
-            got = img[:, 0] ** 2 / (img ** 2).sum(-1)
-            bad = np.abs(got - cos2) > TOL
-            for j in np.nonzero(bad)[0][:2]:
-                run.violation(key + ":v=%s" % rec["pts"][j][0], "hyperplane_transform.chart_coordinate",
-                              dict(normal=rec["n"], v=rec["pts"][j][0], library_cos2=float(got[j]), spec_cos2=float(cos2[j])))
-            off = cos2 > 0
-            inside = np.asarray((T @ P.Point(V[off].copy())).in_affine_chart(0))
-            if not inside.all():
-                run.violation(key, "hyperplane_transform.chart_to_chart", dict(normal=rec["n"]))
-            run.evaluations += len(V)
-        except Exception as ex:
-            run.violation(key, "raised:hyperplane_coordinate_transform", dict(normal=rec["n"], error=err(ex)))
+        V = np.array([p[0] for p in rec["pts"]], dtype=float)
+        cos2 = np.array([p[1][0] / p[1][1] for p in rec["pts"]])
+        for sc in rec["scales"]:
+            nv = np.array(rec["n"], dtype=float) * sc[0] / sc[1]
+            key = "hyperplane:n=%d:%s*%d/%d" % (n, rec["n"], sc[0], sc[1])
+            run.case(key=key, action="hyperplane_coordinate_transform")
+            try:
+                with warnings.catch_warnings():
+                    warnings.simplefilter("ignore")
+                    T = P.hyperplane_coordinate_transform(nv.copy())
+                    M = np.asarray(T.matrix, float)
+                    if M.shape != (n + 1, n + 1) or over(np.abs(M @ M.T - np.eye(n + 1)).max(), TOL):
+                        run.violation(key, "hyperplane_transform.orthogonal", dict(normal=nv.tolist(), matrix=lst(M)))
+                        continue
+                    img = np.asarray((T @ P.Point(V.copy())).proj_data, float)
+                    got = img[:, 0] ** 2 / (img ** 2).sum(-1)
+                bad = over(np.abs(got - cos2), TOL)
+                for j in np.nonzero(bad)[0][:2]:
+                    run.violation(key + ":v=%s" % rec["pts"][j][0], "hyperplane_transform.chart_coordinate",
+                                  dict(normal=nv.tolist(), v=rec["pts"][j][0], library_cos2=float(got[j]), spec_cos2=float(cos2[j])))
+                off = cos2 > 0
+                inside = np.asarray((T @ P.Point(V[off].copy())).in_affine_chart(0))
+                if not inside.all():
+                    run.violation(key, "hyperplane_transform.chart_to_chart", dict(normal=nv.tolist()))
+                run.evaluations += len(V)
+            except Exception as ex:
+                run.violation(key, "raised:hyperplane_coordinate_transform", dict(normal=nv.tolist(), error=err(ex)))
 
 
 # ========================================================================================
@@ -384,7 +421,7 @@ def projector(S):
     """orthogonal projector onto the row span; None if the rows are dependent"""
     S = np.asarray(S, float)
     u, s, vt = np.linalg.svd(S, full_matrices=False)
-    if s.min() <= 1e-9 * s.max():
+    if not s.min() > 1e-9 * s.max():
         return None
     return vt.T @ vt
 
@@ -402,9 +439,9 @@ def span_check(R, W, A, B):
         return ("intersect.independent", "returned spanning vectors are dependent: %r" % (np.round(R, 6).tolist(),))
     for nm, S in (("first", A), ("second", B)):
         ps = projector(S)
-        if np.abs(pr @ ps - pr).max() > 1e-8:
+        if over(np.abs(pr @ ps - pr).max(), 1e-8):
             return ("intersect.contained_in_" + nm, "a returned vector leaves the %s subspace: %r" % (nm, np.round(R, 6).tolist()))
-    if np.abs(pr - projector(W)).max() > 1e-8:
+    if over(np.abs(pr - projector(W)).max(), 1e-8):
         return ("intersect.span", "library %r, exact %r" % (np.round(R, 6).tolist(), W.tolist()))
     return None
 
@@ -533,7 +570,7 @@ def replay_eigen(run, m, r, rng):
                             viol("eigenvector.parallel_to_exact", layout=layout, eigenvalue=float(ev[k]), library=lst(d), exact=o["evecs"][k])
                             break
                         img = np.asarray((tr @ v).proj_data)
-                        if np.abs(img - ev[k] * d).max() > 1e-8 * scale * np.abs(d).max():
+                        if over(np.abs(img - ev[k] * d).max(), 1e-8 * scale * np.abs(d).max()):
                             viol("eigenvector.mapped_to_multiple", layout=layout, eigenvalue=float(ev[k]), vector=lst(d), image=lst(img))
                             break
                     v = tr.eigenvector()
@@ -550,10 +587,10 @@ def replay_eigen(run, m, r, rng):
                             Mi = Mx.inv()
                         Dm = np.asarray((Mi @ tr @ Mx).proj_data)
                         off = Dm - np.diag(np.diag(Dm))
-                        if np.abs(off).max() > 1e-8 * scale:
+                        if over(np.abs(off).max(), 1e-8 * scale):
                             viol("diagonalize.diagonal", layout=layout, return_inv=with_inv, conjugated=[lst(x) for x in Dm])
                             break
-                        if np.abs(np.sort(np.diag(Dm).real) - np.sort(ev)).max() > 1e-8 * scale or np.abs(np.diag(Dm).imag).max(initial=0) > 1e-8 * scale:
+                        if over(np.abs(np.sort(np.diag(Dm).real) - np.sort(ev)).max(), 1e-8 * scale) or over(np.abs(np.diag(Dm).imag).max(initial=0), 1e-8 * scale):
                             viol("diagonalize.spectrum", layout=layout, return_inv=with_inv, diagonal=lst(np.diag(Dm)))
                             break
             except Exception as ex:
@@ -587,7 +624,7 @@ def replay_eigen(run, m, r, rng):
                     Mx = tr.diagonalize()
                     Dm = np.asarray((Mx.inv() @ tr @ Mx).proj_data).reshape(cnt, m, m)
                     off = Dm - Dm * np.eye(m)
-                    if np.abs(off).max() > 1e-8 * np.abs(Ts).max():
+                    if over(np.abs(off).max(), 1e-8 * np.abs(Ts).max()):
                         run.violation(key, "diagonalize.composite.diagonal", dict(m=m, shape=list(shp)))
             except Exception as ex:
                 run.violation(key, "raised:eigen.composite", dict(m=m, shape=list(shp), error=err(ex)))
